@@ -457,6 +457,74 @@ static std::string last_op_of(const std::string& text) {
   return opn;
 }
 
+
+// Floating point boxes: does some coefficient (or the inhomogeneous term) of the constraints fall outside the set of values the
+// boundary type represents exactly (more significant bits than the mantissa, or beyond the largest finite value)?  The propagation
+// code rounds such a coefficient in a fixed direction whatever the sign of the other factor (known finding), so the class is part
+// of the violation key.
+static bool inexact_in_T(const mpz_class& z) {
+  if (!TI.fdigits || z == 0) return false;
+  size_t bits = mpz_sizeinbase(z.get_mpz_t(), 2); size_t tz = mpz_scan1(z.get_mpz_t(), 0);
+  return (int) (bits - tz) > TI.fdigits || (int) bits > TI.fmaxexp;
+}
+static std::string coef_class(const std::vector<Constraint>& cv, int n) {
+  if (!TI.fdigits) return "";
+  for (size_t i = 0; i < cv.size(); ++i) {
+    if (inexact_in_T(mpz_class(cv[i].inhomogeneous_term()))) return "+coef-beyond-mantissa";
+    for (int v = 0; v < n && v < (int) cv[i].space_dimension(); ++v) if (inexact_in_T(mpz_class(cv[i].coefficient(Variable(v))))) return "+coef-beyond-mantissa";
+  }
+  return "";
+}
+
+static std::string coef_class(const std::vector<Congruence>& gv, int n) {
+  if (!TI.fdigits) return "";
+  for (size_t i = 0; i < gv.size(); ++i) {
+    if (inexact_in_T(mpz_class(gv[i].inhomogeneous_term()))) return "+coef-beyond-mantissa";
+    for (int v = 0; v < n && v < (int) gv[i].space_dimension(); ++v) if (inexact_in_T(mpz_class(gv[i].coefficient(Variable(v))))) return "+coef-beyond-mantissa";
+  }
+  return "";
+}
+static std::string coef_class(const Sys& src) {
+  if (!TI.fdigits) return "";
+  for (size_t i = 0; i < src.size(); ++i) {
+    if (src[i].b.get_den() != 1 || inexact_in_T(src[i].b.get_num())) return "+coef-beyond-mantissa";
+    for (size_t j = 0; j < src[i].a.size(); ++j) if (src[i].a[j].get_den() != 1 || inexact_in_T(src[i].a[j].get_num())) return "+coef-beyond-mantissa";
+  }
+  return "";
+}
+
+static std::string coef_class(const Linear_Expression& e, int n) {
+  if (!TI.fdigits) return "";
+  if (inexact_in_T(mpz_class(e.inhomogeneous_term()))) return "+coef-beyond-mantissa";
+  for (int v = 0; v < n && v < (int) e.space_dimension(); ++v) if (inexact_in_T(mpz_class(e.coefficient(Variable(v))))) return "+coef-beyond-mantissa";
+  return "";
+}
+static std::string coef_class(const Coefficient& d) { return inexact_in_T(mpz_class(d)) ? "+coef-beyond-mantissa" : ""; }
+static std::string one_of(const std::string& a, const std::string& b, const std::string& c2 = "") { return !a.empty() ? a : !b.empty() ? b : c2; }
+
+// Pre-step for the constraint-propagation operators: with some probability the receiver is first turned into a box whose
+// dimensions are mostly bounded on both sides with independently open / closed finite boundaries (half-open intervals).
+// The propagation code has one branch per (relation, sign of the pivot coefficient, sign of every other coefficient) and each
+// reads a particular boundary (and its openness) of every other variable: only such receivers make a wrong flag observable.
+// The step is an ordinary, traced use of the public interface; the receiver's shadow is re-observed afterwards.
+static bool rebox(StepCtx& c) {
+  if (c.n < 2 || c.SA.empty || !coin(35)) return true;
+  BoxI& A = *c.A; const int n = c.n;
+  std::ostringstream o; o << c.pre << ".rebox(";
+  for (int k = 0; k < n; ++k) A.unconstrain(Variable(k));
+  for (int k = 0; k < n; ++k) {
+    int m = rnd(0, 9);               // 0: unbounded, 1: below only, 2: above only, otherwise both
+    int lo = rnd(-6, 4), hi = lo + rnd(0, 6);
+    bool lo_open = TI.open && coin(40), hi_open = TI.open && coin(40);
+    if (m != 0 && m != 2) { Constraint q = lo_open ? Constraint(Variable(k) > lo) : Constraint(Variable(k) >= lo); o << str(q) << " "; A.add_constraint(q); }
+    if (m != 0 && m != 1) { Constraint q = hi_open ? Constraint(Variable(k) < hi) : Constraint(Variable(k) <= hi); o << str(q) << " "; A.add_constraint(q); }
+  }
+  o << ")"; tr(o.str()); hx::count("op.rebox");
+  if (!observe(A, c.SA, "rebox")) return false;
+  c.sA = to_sys(c.SA); c.clsA = shape_class(c.SA); c.stl = status_word(A);
+  return true;
+}
+
 static bool mutate(StepCtx& c) {
   BoxI& A = *c.A; const BoxI& B = *c.B; const int n = c.n;
   const Sys& sA = c.sA; const Sys& sB = c.sB;
@@ -476,6 +544,7 @@ static bool mutate(StepCtx& c) {
     return true;
   }
   if (k < 18) { // refine_with_constraint(s): any constraint
+    if (!rebox(c)) return true;
     bool many = coin(); int cnt = many ? rnd(0, 3) : 1;
     std::vector<Constraint> cv; bool all_itv = true;
     for (int i = 0; i < cnt; ++i) { Constraint cc = (n > 0 && coin(30)) ? itv_con(n, true) : gen_con_mixed(n, true); if (!is_interval_con(cc, n)) all_itv = false; cv.push_back(cc); }
@@ -484,7 +553,7 @@ static bool mutate(StepCtx& c) {
     t << "." << nm << "("; for (size_t i = 0; i < cv.size(); ++i) t << (i ? ", " : "") << str(cv[i]); t << ")"; tr(t.str()); note_op(c, nm, all_itv ? "interval" : "general", false);
     if (many) A.refine_with_constraints(cs); else A.refine_with_constraint(cv[0]);
     Sys T = sA; for (size_t i = 0; i < cv.size(); ++i) T.push_back(ref::conv(cv[i], n));
-    finish(c, nm, all_itv ? "interval" : "general", tgt(n, T), 0, false);
+    finish(c, nm, (all_itv ? "interval" : "general") + coef_class(cv, n), tgt(n, T), 0, false);
     return true;
   }
   if (k < 23) { // congruences
@@ -501,7 +570,7 @@ static bool mutate(StepCtx& c) {
     switch (which) { case 0: A.add_congruence(gv[0]); break; case 1: A.add_congruences(cgs); break; case 2: { Congruence_System tmp(cgs); A.add_recycled_congruences(tmp); break; } case 3: A.refine_with_congruence(gv[0]); break; default: A.refine_with_congruences(cgs); }
     Sys T = sA;
     for (size_t i = 0; i < gv.size(); ++i) { if (gv[i].is_equality()) T.push_back(con_of_cg_equality(gv[i], n)); else if (gv[i].is_inconsistent()) { Vec z(n); T.push_back(Con(z, Q(-1), ref::LE)); } }
-    if (!proper) { finish(c, nm[which], "", tgt(n, T), refine ? 0 : 1, false); return true; }
+    if (!proper) { finish(c, nm[which], refine ? coef_class(gv, n) : std::string(), tgt(n, T), refine ? 0 : 1, false); return true; }
     // with proper congruences the exact result is not polyhedral: a lost point counts only if it satisfies them
     Shadow R; if (!observe(A, R, nm[which])) return true;
     Shadow keep = R; (void) keep;
@@ -513,13 +582,14 @@ static bool mutate(StepCtx& c) {
       else for (int kk = 0; kk < n && !bad; ++kk) for (int side = 0; side < 2 && !bad; ++side) { const Bnd& b = side ? R.iv[kk].hi : R.iv[kk].lo; if (b.inf) continue; Vec a(n); Con neg; if (side == 0) { a[kk] = 1; neg = Con(a, b.v, b.open ? ref::LE : ref::LT); } else { a[kk] = -1; neg = Con(a, Q(-b.v), b.open ? ref::LE : ref::LT); } Sys s = P.s; s.push_back(neg); if (ref::feasible(n, s, &w)) bad = true; }
       if (bad) {
         bool all = true; for (size_t i = 0; i < gv.size(); ++i) if (!sat_cg(gv[i], w)) all = false;
-        if (all && ref::sat(P.s, w) && !member(R, w)) violation(key_sound(nm[which], "proper-congruence"), "point " + show(w) + " satisfies the receiver and the congruences but is outside the result " + show(R) + "; " + ctx_of(c, false));
+        if (all && ref::sat(P.s, w) && !member(R, w)) violation(key_sound(nm[which], "proper-congruence" + coef_class(gv, n)), "point " + show(w) + " satisfies the receiver and the congruences but is outside the result " + show(R) + "; " + ctx_of(c, false));
         else hx::inconclusive("congruence_witness");
       }
     }
     return true;
   }
   if (k < 28) { // propagate_constraint(s)
+    if (!rebox(c)) return true;
     bool many = coin(); int cnt = many ? rnd(1, 3) : 1;
     std::vector<Constraint> cv; for (int i = 0; i < cnt; ++i) cv.push_back(gen_con_mixed(n, true));
     Constraint_System cs; for (size_t i = 0; i < cv.size(); ++i) cs.insert(cv[i]);
@@ -529,7 +599,7 @@ static bool mutate(StepCtx& c) {
     if (many) A.propagate_constraints(cs, mi); else A.propagate_constraint(cv[0]);
     Sys T = sA; for (size_t i = 0; i < cv.size(); ++i) T.push_back(ref::conv(cv[i], n));
     std::string pcls; for (size_t i = 0; i < cv.size(); ++i) if (cv[i].is_equality() && nvars_of(Linear_Expression(cv[i].expression()), n) == 0 && cv[i].inhomogeneous_term() == 0) pcls = "trivial-equality-0=0";
-    finish(c, nm, pcls, tgt(n, T), 0, false);
+    finish(c, nm, pcls + coef_class(cv, n), tgt(n, T), 0, false);
     return true;
   }
   if (k < 33) { tr(c.pre + ".intersection_assign(" + bref + ")"); note_op(c, "intersection_assign", "", true);
@@ -583,7 +653,7 @@ static bool mutate(StepCtx& c) {
     t << "." << nm << "(" << str(Variable(v)) << ", " << REL5S[ri] << ", " << str(e) << ", " << d << ")"; tr(t.str()); note_op(c, nm, cls + sgn_pattern(e, n) + (d < 0 ? "/-" : "/+") + REL5S[ri], false);
     if (pre) A.generalized_affine_preimage(Variable(v), REL5[ri], e, d); else A.generalized_affine_image(Variable(v), REL5[ri], e, d);
     Vec ea; Q eb; ref::conv(e, n, ea, eb);
-    finish(c, nm, cls, tgt(ref::def_gen_affine(sA, n, v, ri, ea, eb, ref::toQ(d), pre)), 0, false);
+    finish(c, nm, cls + one_of(coef_class(e, n), coef_class(d)), tgt(ref::def_gen_affine(sA, n, v, ri, ea, eb, ref::toQ(d), pre)), 0, false);
     return true; }
   if (n >= 1 && k < 75) { // generalized affine image / preimage, lhs/rhs form
     bool pre = coin(); Linear_Expression l = rexpr(n, 55), r = rexpr(n); int ri = rnd(0, 4);
@@ -594,7 +664,7 @@ static bool mutate(StepCtx& c) {
     t << "." << nm << "(" << str(l) << ", " << REL5S[ri] << ", " << str(r) << ")"; tr(t.str()); note_op(c, nm, cls + sgn_pattern(l, n) + sgn_pattern(r, n) + REL5S[ri], false);
     if (pre) A.generalized_affine_preimage(l, REL5[ri], r); else A.generalized_affine_image(l, REL5[ri], r);
     Vec la, ra; Q lb, rb; ref::conv(l, n, la, lb); ref::conv(r, n, ra, rb);
-    finish(c, nm, cls, tgt(ref::def_gen_affine_lr(sA, n, la, lb, ri, ra, rb, pre)), 0, false);
+    finish(c, nm, cls + one_of(coef_class(l, n), coef_class(r, n)), tgt(ref::def_gen_affine_lr(sA, n, la, lb, ri, ra, rb, pre)), 0, false);
     return true; }
   if (n >= 1 && k < 84) { // bounded affine image / preimage
     bool pre = coin(); int v = rnd(0, n - 1); Linear_Expression lb = rexpr(n), ub = rexpr(n); Coefficient d = rden();
@@ -613,7 +683,7 @@ static bool mutate(StepCtx& c) {
     }
     if (pre) A.bounded_affine_preimage(Variable(v), lb, ub, d); else A.bounded_affine_image(Variable(v), lb, ub, d);
     Vec la, ua; Q lbb, ubb; ref::conv(lb, n, la, lbb); ref::conv(ub, n, ua, ubb);
-    finish(c, nm, cls, tgt(ref::def_bounded_affine(sA, n, v, la, lbb, ua, ubb, ref::toQ(d), pre)), 0, false);
+    finish(c, nm, cls + one_of(coef_class(lb, n), coef_class(ub, n), coef_class(d)), tgt(ref::def_bounded_affine(sA, n, v, la, lbb, ua, ubb, ref::toQ(d), pre)), 0, false);
     return true; }
   if (n >= 1 && k < 87) { // unconstrain
     bool set = coin(); std::vector<bool> vars(n, false); Variables_Set vs;
@@ -986,7 +1056,7 @@ static bool construct(StepCtx& c, BP& slot) {
     if (fromgens) { int k = rnd(1, 4); for (int i = 0; i < k; ++i) { Generator g = rgen(n, nnc, i == 0); o << (i ? ", " : "") << str(g); ph->add_generator(g); } }
     else { int k = rnd(0, 4); for (int i = 0; i < k; ++i) { Constraint q = (n > 0 && coin(35)) ? itv_con(n, nnc) : gen_con(n, nnc); o << (i ? ", " : "") << str(q); ph->add_constraint(q); } if (coin(25)) (void) ph->minimized_generators(); }
     Sys src; if (nnc) { NNC_Polyhedron cp(static_cast<const NNC_Polyhedron&>(*ph)); src = ref::conv(cp.constraints(), n); } else { C_Polyhedron cp(static_cast<const C_Polyhedron&>(*ph)); src = ref::conv(cp.constraints(), n); }
-    name = std::string("Box(") + (nnc ? "NNC_Polyhedron" : "C_Polyhedron") + ")"; cls = CCN[cc];
+    name = std::string("Box(") + (nnc ? "NNC_Polyhedron" : "C_Polyhedron") + ")"; cls = CCN[cc]; if (cc == 0) cls += coef_class(src);
     t << name << "{" << o.str() << "}, " << CCN[cc]; tr(t.str());
     R.reset(A.from_polyhedron(*ph, CC)); T = tgt(n, src); best = (CC == ANY_COMPLEXITY); srctxt = show(src);
   } else if (which == 3) { // generator system
